@@ -200,7 +200,7 @@ def match_known(pid, driver, failure, tags=()):
     (regex) and, if given, the failure kind / a required feature tag / an event of the diverging
     logs. Anything else is reported as VIOLATION."""
     for k in load_known().get("known", []):
-        if k["property"] != pid:
+        if k["property"] != pid and pid not in k.get("also", []):
             continue
         mt = k.get("match", {})
         if "driver" in mt and not re.search(mt["driver"], driver):
